@@ -31,7 +31,13 @@ def ex_lastn(repo):
 
 
 def obligations():
-    return [
+    import C01
+    return common.shared('C01', ['O1.1-shape'], 'O12', 'the tip only moves to a header that was PROVEN: a sampled difficulty answered by another block than the one that covers it is rejected') + [
+        KModelOb('O12.6-td-gate', 'lastn:tdgate', 'td_gate_runs', 'SendLastStateProofProcess::execute, the "Check total difficulty" statement (real text): a proof WITH samples from a peer that already holds a '
+                 'proved state is accepted only if verify_total_difficulty(previously proved last header, new last header, TAU) is Ok - whatever else the response carries (reorg headers in particular); '
+                 'InvalidTotalDifficulty otherwise', lambda repo: common.status_code(repo) + common.peer_state_types(repo) + common.td_gate(repo),
+                 '<=2 reorg, <=1 sampled, 1..2 last headers; arbitrary peer state / header contents; verify_total_difficulty -> recorded call with an arbitrary verdict (its text: C14)', cuts=CUTS,
+                 timeout=900, mem_gb=10, min_covers=1, weight=3, rustflags='--cfg td_gate'),
         KModelOb('O12.5-remembered-headers', 'lastn', 'select_last_headers', 'SendLastStateProofProcess::execute, selection of the headers remembered with the new prove state (real text): '
                  'the reorg section is kept as is; the remembered last headers END with the last min(count, N) headers of the proof, are never more than N, exactly N when the proof '
                  'carries at least N, and are otherwise completed from the tail of the previously remembered (or reorg) headers - what commit_prove_state later compares forks against',
